@@ -20,6 +20,55 @@ from rules.C02 import flag_rules
 ZA = r"^read::<impl read::zip_archive::ZipArchive<R>>::"
 
 
+def _open_table_by_flow(f):
+    """the (password, encrypted) table of the opener decided on the value flow: -> (row `None,encrypted => Err(PASSWORD_REQUIRED) before
+    anything is opened`, row `Some,plain => the crypto reader is built with None; Some,encrypted => with the caller's password`)"""
+    from engine import sym
+    S = sym.Sym(f, max_paths=40000)
+    S._returns = []
+    try:
+        calls = S.run(lambda bb, t: re.search(r"make_crypto_reader$|find_content$", t.get("callee") or "") is not None)
+        rets = S._returns
+    except sym.SymTooComplex:
+        return False, False
+    finally:
+        S._returns = None
+
+    def atoms(conds):
+        pw = enc = None
+        for d, v in conds:
+            if d[0] == "discr" and d[1][0] == "arg" and d[1][2] == "password":
+                pw = "none" if v == 0 else "some"
+            elif d[0] == "field" and d[2] == "encrypted":
+                enc = (v != 0) if v is not None else True
+        return pw, enc
+    row_a = row_b = True
+    seen_a = seen_b = seen_c = 0
+    for c in calls:
+        pw, enc = atoms(c["state"].conds)
+        if pw is None or enc is None:
+            continue
+        if pw == "none" and enc:
+            row_a = False           # something is opened although a password is required and none was given
+        if (c["term"].get("callee") or "").endswith("make_crypto_reader"):
+            a = c["args"][5] if len(c["args"]) > 5 else None
+            if a is None:
+                return False, False
+            if pw == "some" and not enc:
+                seen_b += 1
+                row_b = row_b and sym.is_none_agg(a)
+            if pw == "some" and enc:
+                seen_c += 1
+                row_b = row_b and a[0] == "arg" and a[2] == "password"
+    for r in rets:
+        pw, enc = atoms(r["conds"])
+        if pw == "none" and enc:
+            seen_a += 1
+            v = r["ret"]
+            row_a = row_a and v[0] == "agg" and v[1] == "adt:Err" and "PASSWORD_REQUIRED" in sym.show(v) and "UnsupportedArchive" in sym.show(v)
+    return row_a and seen_a >= 1, row_b and seen_b >= 1 and seen_c >= 1
+
+
 def open_rules(facts, rep, rule="C15-OPEN"):
     ok = True
     f = facts.one(ZA + "by_index_with_optional_password$")
@@ -33,6 +82,12 @@ def open_rules(facts, rep, rule="C15-OPEN"):
         o = outcome(p)
         good = good and o[0] == "Err" and o[1] is not None and any(x[0] == "named" and x[1].endswith("PASSWORD_REQUIRED") for x in walk(o[1])) and \
             not called(p, r"find_content$|make_crypto_reader$")
+    flow = None
+    if not good:
+        # second opinion, spelling-independent: the same table read off the value flow (E9) -- e.g. when the case analysis lives in
+        # a helper that returns Result<Option<&[u8]>> and is used with `?`
+        flow = _open_table_by_flow(f)
+        good = flow[0]
     ok &= rep.check(good, rule, "no-password+encrypted=>PASSWORD_REQUIRED", where(f, f.span), "encrypted entry opened without a password => Err(UnsupportedArchive(PASSWORD_REQUIRED)), nothing read",
                     "an encrypted entry opened without a password is not refused with the password-required error")
     # Some + !encrypted => password discarded
@@ -45,6 +100,9 @@ def open_rules(facts, rep, rule="C15-OPEN"):
             fs = dominating_facts(f, ex, bi)
             disc = any(x[0] == "Eq" and x[1] == ("discr", ("arg", 3, "password")) and x[2][2] == 1 for x in fs) and \
                 any(x[0] == "truth" and x[2] is False and "encrypted" in show(x[1]) for x in fs)
+    if not disc:
+        flow = flow or _open_table_by_flow(f)
+        disc = flow[1]
     ok &= rep.check(disc, rule, "password+plain=>discard", where(f, f.span), "a password given for an unencrypted entry is discarded", "a superfluous password is no longer discarded for unencrypted entries")
     # the two *_decrypt wrappers hand the caller's password on as Some(password), unconditionally: the EMPTY password is a password
     # (valid for ZipCrypto and WinZip-AES alike); "no password" is expressed by calling by_index / by_name
